@@ -6,7 +6,21 @@ the in-flight request gets {"outcome": "abort"|"hang", ...} and a fresh worker i
 import json, os, select, subprocess, threading, queue, signal, resource, time
 
 HARNESS = os.path.join(os.path.dirname(os.path.dirname(os.path.abspath(__file__))), "harness")
-BIN = os.path.join(HARNESS, "target", "debug", "mechverif")
+BUILT = os.path.join(HARNESS, "target", "debug", "mechverif")
+BIN = BUILT
+_private = [None]
+
+def use_private_copy():
+    """Copy the freshly built executor to a private file and run from there, so that a later rebuild (another check
+    started meanwhile, possibly against a different /repo working tree) cannot swap the binary under a running check."""
+    import atexit, shutil, tempfile
+    global BIN
+    if _private[0]: return
+    d = tempfile.mkdtemp(prefix="exec_", dir=os.path.join(os.path.dirname(HARNESS), "out"))
+    dst = os.path.join(d, "mechverif")
+    shutil.copy2(BUILT, dst)
+    _private[0] = d; BIN = dst
+    atexit.register(lambda: shutil.rmtree(d, ignore_errors=True))
 
 
 class Worker:
